@@ -6,3 +6,8 @@ require (
 	golang.org/x/tools v0.29.0
 	sigs.k8s.io/yaml v1.4.0
 )
+
+require (
+	golang.org/x/mod v0.22.0 // indirect
+	golang.org/x/sync v0.10.0 // indirect
+)
